@@ -11,6 +11,36 @@ META = {
         note=COMMON_NOTE + "Sequential, fault-free histories over the HMAC token strategy; JWT access-token strategy not yet in the model. Partial items are listed in evidence.coverage.partial.",
         technique="Lean 4 proof (invariant by induction over histories, wp-calculus over handler programs) + differential correspondence + trace monitor",
     ),
+    "C02": dict(
+        text="Kernel-checked one-step theorems (valid in every state, hence at every position of every history): a redemption returns tokens only for the owning, authenticated client, with the verbatim redirect_uri when one was sent, before the code's expiry, and the scopes returned are exactly the consented ones whatever the token request smuggles; tied to /repo by the history correspondence and monitored on implementation traces.",
+        note=COMMON_NOTE + "Fault-free sequential runs, HMAC strategy.",
+        technique="Lean 4 proof (success-path wp-calculus over the handler program) + differential correspondence + trace monitor",
+    ),
+    "C03": dict(
+        text="Kernel-checked theorems on what the PKCE handler demands of any successful redemption (well-formed verifier transforming to the stored challenge under the stored method; plain only if enabled; enforcement), plus a machine-checked counterexample showing that the full statement fails after a failed attempt on the code as modelled; correspondence + monitor tie this to /repo and produce the concrete replay.",
+        note=COMMON_NOTE + "S256 is an abstract injective transform in the model (SHA-256 collision resistance assumed).",
+        technique="Lean 4 proof + counterexample by kernel evaluation + differential correspondence + trace monitor",
+    ),
+    "C04": dict(
+        text="Kernel-checked theorem over all histories: under the grant invariant (proved to hold initially and to be preserved by every operation, via a safety calculus showing every record-creating call is issued under its guard) each refresh token is exchanged successfully at most once; a successful exchange leaves the presented token dead and dead tokens stay dead through every storage call.",
+        note=COMMON_NOTE + "Fault-free sequential runs over the reference store; HMAC strategy.",
+        technique="Lean 4 proof (inductive invariant over histories + refinement of handler programs) + differential correspondence + trace monitor",
+    ),
+    "C05": dict(
+        text="Kernel-checked one-step theorems: a refresh succeeds only for the owning authenticated client still registered for the grant type and still allowed every granted scope and audience; returned scopes and the stored records carry the original grant; code-flow refresh-token issuance rule as an iff.",
+        note=COMMON_NOTE,
+        technique="Lean 4 proof (success-path characterisation) + differential correspondence + trace monitor",
+    ),
+    "C08": dict(
+        text="Kernel-checked refinement: the revocation endpoint equals a pure function of the state (revokePure) on every input; from it: unauthenticated and foreign callers change nothing and get the prescribed errors, unknown tokens are success no-ops, and under the grant invariant an owner's revocation of a live refresh token leaves it dead.",
+        note=COMMON_NOTE,
+        technique="Lean 4 proof (refinement to a pure function + invariant) + differential correspondence + trace monitor",
+    ),
+    "C09": dict(
+        text="Kernel-checked refinement: IntrospectToken equals a pure function of store, clock and configuration and never changes the state; soundness (reported active => record present, exact copy, unexpired, scopes covered, reported request is the record), completeness for live access tokens, hint-independence of liveness, no refresh tokens when disabled, tampered presentations never active.",
+        note=COMMON_NOTE,
+        technique="Lean 4 proof (refinement to a pure function) + differential correspondence + trace monitor",
+    ),
     "C12": dict(
         text="Kernel-checked equivalence between the Lean model of each scope/audience strategy loop and its documented meaning for all inputs (induction over segment lists), with the model tied to the Go functions by bounded-exhaustive + seeded differential runs; the documented meaning is also evaluated directly against the implementation as a monitor.",
         note=COMMON_NOTE + "Partial: see evidence.coverage.partial for the strategies/flows whose theorem is not yet proved.",
